@@ -52,7 +52,7 @@ CLAIMED.update({
 CLAIMED.update({
     "C03": pipe("Theorems: the expression trees that the backends really build (generated/OpImpls.v: Polars expr.meta.serialize JSON and SQLAlchemy trees re-read from /repo on every run) evaluate, under the primitive semantics of Model/ImplExpr.v, to the documented operator for all operands: floor division and modulo on Polars and SQLite, GREATEST / LEAST on SQLite for EVERY arity (divide-and-conquer recursion proved by induction, the generated trees of arity 2..6 proved to be that recursion), is_in, Kleene and/or/xor/not, clip, horizontal folds. Tie: translator + L1 operand grid (every operator x operand classes incl. nulls, negatives, zero divisors, ties) on both backends.",
                 "Rocq: emulation-correctness theorems over translator-generated implementation trees; differential operand grid", "5 / C03"),
-    "C12": pipe("Theorems: Model/Typing.v (transcription of dtype() / ftype()) - literals, casts, comparisons, boolean operators, integer arithmetic, Int/Int, counts: the value of a well-typed expression inhabits its static type (partial type soundness, the proved fragment is listed in Properties/C12.v). Tie: dtype oracle on every generated pipeline on both backends (static dtype of each visible column vs the exported Polars dtype; re-import and collect reproduce the types) + operator dtype grid (every operator x declared overload on Polars and SQLite, shift in both directions with / without fill) + L1.",
+    "C12": pipe("Theorems: Model/Typing.v (transcription of dtype() / ftype()) - literals, casts, comparisons, boolean operators, integer arithmetic, Int/Int, counts: the value of a well-typed expression inhabits its static type (partial type soundness, the proved fragment is listed in Properties/C12.v); OPERATOR LEVEL, all values: the result of each of the 40 modelled element-wise operators lies in the value family computed from the argument families (operator_results_inhabit_their_family), and - decided in the kernel over the REGENERATED catalogue, 27 872 accepted overloads of the enumeration - the declared return type of every accepted overload is in that family (declared_return_types_are_the_result_families; typed_operator_application_is_sound combines both). Tie: dtype oracle on every generated pipeline on both backends (static dtype of each visible column vs the exported Polars dtype; re-import and collect reproduce the types) + operator dtype grid (every operator x declared overload on Polars and SQLite, shift in both directions with / without fill) + L1.",
                 "Rocq: typing lemmas on the transcribed type rules; dtype oracle on generated pipelines", "5 / C12"),
     "C14": pipe("Theorems: Model/Typing + Proofs/RejectLemmas - a nested aggregate / window function is rejected in every position of every expression shape (occurs-induction: arguments, partition_by, arrange, case branches, casts), an unknown column is rejected, a non-boolean case condition is rejected. Tie: planted-defect stream (27 rules of invalid use x positions in generated pipelines: unknown / hidden / foreign columns, wrong types, nested aggregation, markers outside arrange, duplicate names, grouped misuse ...) must raise the documented error class at the verb call on both backends and leave the accepted prefix usable.",
                 "Rocq: rejection theorems on the transcribed type / function-type rules; planted-defect differential stream", "5 / C14"),
